@@ -27,6 +27,27 @@ ENGINES = [
 PROPS = {}
 
 
+def _describe_preempt(pid, cfg):
+    """Texts for the E-PREEMPT variant built from harness/preempt_pure.hh (C10 describes its own variant by hand)."""
+    v = cfg.get("variants", {}).get("preempt")
+    if not v or "pairs_text" not in v:
+        return
+    files = ", ".join("src/" + f for f in v.get("src_cxxflags", {}))
+    for tier in ("quick", "thorough"):
+        cfg["bounds"][tier] += ("; concurrent_pairs (variant 'preempt', E-PREEMPT): " + v["pairs_text"] + ": every unordered pair of these calls, and every call paired with itself, run concurrently under EVERY schedule "
+                                "with <= 2 preemptions (same-function pairs of short calls%s) or <= 1 preemption (all other pairs) at basic-block granularity, every completion order; each call must return "
+                                "what it returns when it runs alone" % ("" if tier == "quick" else "; in this tier also longer calls and cross-function pairs"))
+    cfg["assumptions"].append(
+        "concurrency (variant 'preempt', engine/preempt.hh): two calls run as fibers of one OS thread; only %s %s compiled with -fsanitize-coverage=trace-pc and every basic-block entry there is a scheduling "
+        "point; interleavings are explored at that granularity under sequentially consistent semantics; a read-modify-write inside one basic block, weak-memory effects and all code outside the instrumented "
+        "files (libc, libstdc++ out-of-line code, other phosg sources) are atomic steps; the oracle is differential (the result under concurrency equals the result of the same call alone, which the main "
+        "sections judge against the references); if an instrumented file defines thread_local objects the variant is skipped (fibers would share them) and the run is reported as not exhaustive"
+        % (files, "is" if len(v.get("src_cxxflags", {})) == 1 else "are"))
+    cfg["engine"] = cfg.get("engine", "E-ENUM") + " + E-PREEMPT"
+    cfg["technique"] = cfg["technique"] + "; plus preemption-bounded exhaustive exploration of pairs of concurrent calls (every schedule with <= 1-2 preemptions at basic-block granularity, fibers under a controlled scheduler)"
+    cfg["level_note"] = cfg.get("level_note", "") + " Concurrent calls are explored for a fixed list of short calls, two at a time, with a preemption bound of 2 (1 for longer calls), at basic-block granularity of the instrumented sources only."
+
+
 def _load():
     import glob, importlib.util, os
     here = os.path.dirname(os.path.abspath(__file__))
@@ -36,6 +57,10 @@ def _load():
         m = importlib.util.module_from_spec(spec)
         spec.loader.exec_module(m)
         PROPS[pid] = m.CFG
+        _describe_preempt(pid, m.CFG)
 
 
 _load()
+
+ENGINES.append(dict(name="preempt", path="engine/preempt.hh", serves=sorted(p for p, c in PROPS.items() if "preempt" in c.get("variants", {})),
+                    kind="preemption-bounded exploration of concurrent calls: gcc trace-pc basic-block callback as scheduling point, fibers, every schedule with <= k preemptions and every completion order"))
